@@ -64,7 +64,9 @@ def r_adjacency(idx, rep, rule="R-ADJACENCY"):
     lp = loops[0]
     tri = [e.id for e in lp.target.elts]
     got = {}
-    for c in ast.walk(lp):
+    from ..core.inline import normalise_statements
+    body_nf = ast.Module(body=normalise_statements(idx, init.module, lp.body), type_ignores=[])      # literal inner loops over (corner, neighbours) pairs unrolled
+    for c in ast.walk(body_nf):
         if isinstance(c, ast.Call) and isinstance(c.func, ast.Attribute) and c.func.attr in ("update", "add") and c.args:
             recv = c.func.value
             # connections[x]  or  connections.setdefault(x, set())
